@@ -47,11 +47,12 @@ theorem ticks_append (nS nM : Nat) (a b : List MEv) : ticks nS nM (a ++ b) = tic
 /-! ### `encEv` on the event kinds -/
 
 theorem encEv_other {nS nM : Nat} {e e1 : Enc} {ty arg : Nat} (hge : ty ≥ mds_SLR)
-    (h : encOther nS nM e ty arg = .ok e1) : encEv nS nM e ⟨ty, arg⟩ = .ok { e1 with lastType := ty } := by
+    (h : encOther nS nM e ty arg = .ok e1) (hne : ¬ (ty = mds_LPB ∧ e.breaks.head?.getD 0 ≠ 0) := by intro hh; exact absurd hh.1 (by decide)) :
+    encEv nS nM e ⟨ty, arg⟩ = .ok { e1 with lastType := ty } := by
   have a1 : ¬ (ty = mds_REST ∧ arg ≠ 0) := by simp [mds_REST, mds_SLR] at *; omega
   have a2 : ¬ (ty < mds_SLR ∧ arg ≠ 0) := by omega
   have a3 : ty < mds_REST ∨ ty ≥ mds_SLR ∨ arg ≠ 0 := by omega
-  simp only [encEv, a1, a2, if_false, h, a3, if_true]
+  simp only [encEv, hne, a1, a2, if_false, h, a3, if_true]
 
 theorem encOther_slr (nS nM : Nat) (e : Enc) (arg : Nat) :
     encOther nS nM e mds_SLR arg = .ok { e with out := e.out ++ [mds_SLR] } := by
@@ -109,7 +110,7 @@ theorem evOk_cmd1 {nS nM : Nat} {e : Enc} {ty arg a : Nat} (hge : ty ≥ mds_SLR
     (h : encOther nS nM e ty arg = .ok { e with out := e.out ++ [ty, a] })
     (hop : oneArgOps.contains ty = true) (hf : ty = mds_FLG → drumSafe a = true) :
     EvOk nS nM e ⟨ty, arg⟩ [Tk.cmd ty a] := by
-  refine ⟨_, encEv_other hge h, List.prefix_append _ _, rfl, rfl, ?_⟩
+  refine ⟨_, encEv_other hge h (by rintro ⟨h, _⟩; subst h; exact absurd hop (by decide)), List.prefix_append _ _, rfl, rfl, ?_⟩
   intro seq base mj s O hp g
   exact cmd1_good g hop hf rfl rfl rfl hge hp
 
@@ -117,7 +118,7 @@ theorem evOk_cmd2 {nS nM : Nat} {e : Enc} {ty arg hi lo : Nat} (hge : ty ≥ mds
     (h : encOther nS nM e ty arg = .ok { e with out := e.out ++ [ty, hi, lo] })
     (hop : twoArgOps.contains ty = true) :
     EvOk nS nM e ⟨ty, arg⟩ [Tk.cmd ty (hi * 256 + lo)] := by
-  refine ⟨_, encEv_other hge h, List.prefix_append _ _, rfl, rfl, ?_⟩
+  refine ⟨_, encEv_other hge h (by rintro ⟨h, _⟩; subst h; exact absurd hop (by decide)), List.prefix_append _ _, rfl, rfl, ?_⟩
   intro seq base mj s O hp g
   exact cmd2_good g hop rfl rfl rfl hge hp
 
@@ -135,7 +136,8 @@ theorem encEv_lin (nS nM : Nat) (e : Enc) (ev : MEv) (hv : linEv ev = true) :
     obtain ⟨p1, p2, p3⟩ := encRest_frame he1
     have a1 : arg ≠ 0 := by omega
     have henc : encEv nS nM e ⟨mds_REST, arg⟩ = .ok { e1 with lastType := mds_REST } := by
-      simp [encEv, a1, he1]
+      have a9 : ¬ (mds_REST = mds_LPB) := by decide
+      simp [encEv, a1, he1, a9]
     refine ⟨_, henc, p1, p2, p3, ?_⟩
     intro seq base mj s O hp g
     obtain ⟨s1, r1, f1, i1⟩ := encRest_good (base := base) (mj := mj) g h1 h2 he1 hp
@@ -152,7 +154,8 @@ theorem encEv_lin (nS nM : Nat) (e : Enc) (ev : MEv) (hv : linEv ev = true) :
     have a3 : ty < mds_REST ∨ ty ≥ mds_SLR ∨ arg ≠ 0 := by omega
     have henc : encEv nS nM e ⟨ty, arg⟩ = .ok { encNote e ty arg with lastType := ty } := by
       have a0 : ¬ ty = mds_REST := by simp [mds_REST, mds_TIE] at *; omega
-      simp only [encEv, a0, a2, h2, if_false, if_true, and_self, ne_eq, not_false_eq_true, false_and, or_true]
+      have a9 : ¬ ty = mds_LPB := by simp [mds_LPB, mds_SLR] at *; omega
+      simp only [encEv, a9, a0, a2, h2, if_false, if_true, and_self, ne_eq, not_false_eq_true, false_and, or_true]
     obtain ⟨p1, p2, p3⟩ := encNote_frame e ty arg
     refine ⟨_, henc, (List.prefix_append _ _).trans p1, p2, p3, ?_⟩
     intro seq base mj s O hp g
